@@ -23,7 +23,12 @@ Fail-closed checks (an exception here is a broken obligation of C15): every abst
 schema type makes of the Python objects is verified on the objects - member dict key is the
 member itself, `required` has the same keys and holds a bool for every member (a dict there is
 ledger item D3, repaired by fixes/C15-required-groups-header-members.patch), member fields are
-the objects of the field table, group fields are in the table, message types are the dict keys."""
+the objects of the field table, group fields are in the table, message types are the dict keys.
+
+Each module also carries `decls : raw`, the RAW declarations of the same XML file read with
+xml.etree directly (raw_of_root: fields in XML order, header / component / message children as
+field refs, component refs and nested groups) - the input of the parse model Fix/SchemaParse.v;
+Props/C15.v checks by computation that `parse decls = inr schema` for both files."""
 import os
 import warnings
 
@@ -112,6 +117,86 @@ def load_plain(rel, strict=True):
     return s, dump(s, strict)
 
 
+# ------------------------------------------------------------------------------------ raw declarations
+
+def raw_of_root(root):
+    """The declarations as xml.etree gives them (NOT through the library's parser), input of the
+    Coq parse model coq/theories/Fix/SchemaParse.v:
+      {"fields": [(tag, name, ftype, has_enum)] in XML order, "names", "types" (sorted distinct),
+       "groupable": [field name accepted by SchemaSet.__init__ as a group field],
+       "header": [child], "comps": [(component name, [child])], "msgs": [(name, msgtype, [child])],
+       "cnames": component names in order of first appearance (declared or referenced),
+       "mnames": message names in order of first appearance}
+      child = ("F", field name, required) | ("C", component name) | ("G", field name, required, [child])"""
+    from asyncfix.protocol.schema import SchemaField, SchemaSet
+
+    fields = []
+    for el in root.find("fields"):
+        if el.tag != "field":
+            raise ValueError("unexpected <%s> in <fields>" % el.tag)
+        fields.append((el.attrib["number"], el.attrib["name"], el.attrib["type"], len(el) > 0))
+    groupable = []
+    for tag, name, ftype, _ in fields:
+        try:
+            SchemaSet("x", SchemaField(tag=tag, name=name, ftype=ftype))   # tabulates the real constructor's test
+            if name not in groupable:
+                groupable.append(name)
+        except ValueError:
+            pass
+    cnames, mnames = [], []
+
+    def note(lst, x):
+        if x not in lst:
+            lst.append(x)
+
+    def children(el):
+        out = []
+        for ch in el:
+            if ch.tag == "field":
+                out.append(("F", ch.attrib["name"], ch.attrib["required"].upper() == "Y"))
+            elif ch.tag == "component":
+                note(cnames, ch.attrib["name"])
+                out.append(("C", ch.attrib["name"]))
+            elif ch.tag == "group":
+                out.append(("G", ch.attrib["name"], ch.attrib["required"].upper() == "Y", children(ch)))
+            else:
+                raise ValueError("unexpected <%s> inside <%s>" % (ch.tag, el.tag))
+        return out
+
+    comps = []
+    for el in root.find("components"):
+        if el.tag != "component":
+            raise ValueError("unexpected <%s> in <components>" % el.tag)
+        note(cnames, el.attrib["name"])
+        comps.append((el.attrib["name"], children(el)))
+    header = children(root.find("header"))
+    msgs = []
+    for el in root.find("messages"):
+        if el.tag != "message":
+            raise ValueError("unexpected <%s> in <messages>" % el.tag)
+        el.attrib["msgcat"]
+        note(mnames, el.attrib["name"])
+        msgs.append((el.attrib["name"], el.attrib["msgtype"], children(el)))
+    return {"fields": fields, "names": sorted({f[1] for f in fields}), "types": sorted({f[2] for f in fields}),
+            "groupable": groupable, "header": header, "comps": comps, "msgs": msgs,
+            "cnames": cnames, "mnames": mnames}
+
+
+def raw_codes(raw):
+    """name -> code maps of a raw dump; an undeclared field name gets a code past the table."""
+    ncode = {n: i for i, n in enumerate(raw["names"])}
+    extra = []
+
+    def fcode(name):
+        if name in ncode:
+            return ncode[name]
+        if name not in extra:
+            extra.append(name)
+        return len(ncode) + extra.index(name)
+    return fcode, {t: i for i, t in enumerate(raw["types"])}, {c: i for i, c in enumerate(raw["cnames"])}, \
+        {m: i for i, m in enumerate(raw["mnames"])}
+
+
 # ------------------------------------------------------------------------------------ Coq text
 
 def cstr(s):
@@ -149,7 +234,7 @@ def count(ms):
     return sum(1 + (count(m[3]) if m[0] == "G" else 0) for m in ms)
 
 
-def coq_module(modname, d):
+def coq_module(modname, d, raw=None):
     tcode = {t: i for i, t in enumerate(d["types"])}
     ncode = {n: i for i, n in enumerate(d["names"])}
     t = "Module %s.\n\n" % modname
@@ -176,14 +261,71 @@ def coq_module(modname, d):
         rows.append("(%s, m%d)" % (cstr(mt), i))
     t += "Definition messages : list (str * list member) :=\n  [%s].\n\n" % ";\n   ".join(rows)
     t += "Definition schema : schema := mkSchema fields header messages.\n\n"
+    if raw is not None:
+        t += coq_raw(d, raw)
     t += "End %s.\n\n" % modname
     return t
 
 
+def coq_child(c, fcode, ccode, out, ind):
+    if c[0] == "F":
+        out.append("%sRField %d %s" % (ind, fcode(c[1]), cbool(c[2])))
+    elif c[0] == "C":
+        out.append("%sRComp %d" % (ind, ccode[c[1]]))
+    else:
+        sub = []
+        for x in c[3]:
+            coq_child(x, fcode, ccode, sub, ind + " ")
+        out.append("%sRGroup %d %s [\n%s]" % (ind, fcode(c[1]), cbool(c[2]), ";\n".join(sub)))
+
+
+def coq_children(cs, fcode, ccode):
+    out = []
+    for c in cs:
+        coq_child(c, fcode, ccode, out, "  ")
+    return "[\n" + ";\n".join(out) + "]" if out else "[]"
+
+
+def coq_raw(d, raw):
+    """The raw declarations (read with ElementTree only) as input of Fix/SchemaParse.parse."""
+    fcode, tcode, ccode, mcode = raw_codes(raw)
+    parsed = {f[0]: f for f in d["fields"]}
+    same_codes = raw["names"] == d["names"] and raw["types"] == d["types"]
+    t = "(* ---- raw declarations as xml.etree gives them; component codes: %s *)\n" % ", ".join(
+        "%d=%s" % (i, c.replace("*)", "")) for c, i in ccode.items())
+    items = []
+    for f in raw["fields"]:
+        if same_codes and parsed.get(f[0]) == f:
+            items.append(fname(f[0]))
+        else:
+            items.append("(mkField %s %d %d %s)" % (cstr(f[0]), fcode(f[1]), tcode[f[2]], cbool(f[3])))
+    t += "Definition raw_fields : list field :=\n  [%s].\n\n" % ";\n   ".join(
+        "; ".join(items[i:i + 16]) for i in range(0, len(items), 16))
+    g = [str(fcode(n)) for n in raw["groupable"]]
+    t += "Definition groupable : list N :=\n  [%s].\n\n" % ";\n   ".join("; ".join(g[i:i + 24]) for i in range(0, len(g), 24))
+    t += "Definition raw_header : list rchild := %s.\n\n" % coq_children(raw["header"], fcode, ccode)
+    rows = []
+    for i, (name, ch) in enumerate(raw["comps"]):
+        t += "(* component %s *)\nDefinition rc%d : list rchild := %s.\n\n" % (name.replace("*)", ""), i, coq_children(ch, fcode, ccode))
+        rows.append("(%d, rc%d)" % (ccode[name], i))
+    t += "Definition raw_comps : list rcomp :=\n  [%s].\n\n" % ";\n   ".join(
+        "; ".join(rows[i:i + 8]) for i in range(0, len(rows), 8))
+    rows = []
+    for i, (name, mt, ch) in enumerate(raw["msgs"]):
+        t += "(* message %s *)\nDefinition rm%d : list rchild := %s.\n\n" % (name.replace("*)", ""), i, coq_children(ch, fcode, ccode))
+        rows.append("(%d, %s, rm%d)" % (mcode[name], cstr(mt), i))
+    t += "Definition raw_msgs : list rmsg :=\n  [%s].\n\n" % ";\n   ".join(rows)
+    t += "Definition decls : raw := mkRaw raw_fields groupable raw_header raw_comps raw_msgs.\n\n"
+    return t
+
+
 def generate():
-    t = "From Coq Require Import NArith List.\nFrom AF Require Import Base.Sx Fix.SchemaModel.\n"
+    import xml.etree.ElementTree as ET
+
+    t = "From Coq Require Import NArith List.\nFrom AF Require Import Base.Sx Fix.SchemaModel Fix.SchemaParse.\n"
     t += "Import ListNotations.\nOpen Scope N_scope.\n\n"
     for modname, rel in DICTS:
         _, d = load_plain(rel)
-        t += coq_module(modname, d)
+        raw = raw_of_root(ET.parse(os.path.join(core.REPO, rel)).getroot())
+        t += coq_module(modname, d, raw)
     return t
